@@ -310,6 +310,10 @@ impl<'store> ResultItem<'store, Annotation> {
             }
         }
 
+        if outputted_to_main {
+            //the members above are separated from each other, but not yet from what follows
+            ann_out.push(',');
+        }
         if config.auto_generated && !suppress_auto_generated {
             ann_out += &format!(" \"generated\": \"{}\",", Local::now().to_rfc3339());
         }
